@@ -146,7 +146,11 @@ func coordMain(args []string) {
 			}
 		}
 		sort.Strings(lines)
-		_ = os.WriteFile(filepath.Join(c.scratch, "det.txt"), []byte(strings.Join(lines, "\n")+"\n"), 0o644)
+		detOut := os.Getenv("JSIM_DET_OUT")
+		if detOut == "" {
+			detOut = filepath.Join(c.scratch, "det.txt")
+		}
+		_ = os.WriteFile(detOut, []byte(strings.Join(lines, "\n")+"\n"), 0o644)
 	}
 	os.Exit(c.conclude())
 }
@@ -180,7 +184,11 @@ func (c *coord) workerCmd(ph phase, wid, from, to int, deadline time.Time) *exec
 		args = append(args, ph.extra...)
 	}
 	cmd := exec.Command(bin, args...)
-	cmd.Env = append(os.Environ(), "GOMAXPROCS=2")
+	gmp := os.Getenv("JSIM_WORKER_GOMAXPROCS")
+	if gmp == "" {
+		gmp = "2"
+	}
+	cmd.Env = append(os.Environ(), "GOMAXPROCS="+gmp)
 	if ph.race {
 		cmd.Env = append(cmd.Env, "GORACE=log_path="+filepath.Join(c.scratch, "race", "w"+strconv.Itoa(wid))+" halt_on_error=0 exitcode=0")
 	}
@@ -616,7 +624,7 @@ func candSize(cd *Candidate) int {
 	if cd.World == nil {
 		return 1 << 30
 	}
-	return cd.World.NumOps()*100 + len(cd.World.Objects)
+	return numOps(cd.World)*100 + len(cd.World.Objects)
 }
 
 // materialise turns a replay-by-seed candidate (a run whose process died) into
@@ -648,7 +656,7 @@ func (c *coord) totalRuns() int {
 func (c *coord) minimise(cd *Candidate, budgetEnd time.Time) *ReplayFile {
 	rf := &ReplayFile{Property: c.prop, Seed: c.seed, RunIdx: cd.RunIdx, Race: cd.Race}
 	rf.TapeKinds = simrt.KindNames
-	rf.Original.Ops, rf.Original.Tasks, rf.Original.Tape = cd.World.NumOps(), len(cd.World.Tasks), tapeLen(cd.Tape)
+	rf.Original.Ops, rf.Original.Tasks, rf.Original.Tape = numOps(cd.World), len(cd.World.Tasks), tapeLen(cd.Tape)
 	want := cd.Violation
 	evals := 0
 	maxEvals := 2000
@@ -732,6 +740,62 @@ func (c *coord) minimise(cd *Candidate, budgetEnd time.Time) *ReplayFile {
 			if n != nil {
 				batch = append(batch, n)
 			}
+		}
+		// 0. C19: the history lives inside the container world
+		if cur.World.Prop == "C19" {
+			cw := c19Of(cur.World)
+			if cw == nil {
+				break
+			}
+			edit := func(f func(cw *C19World) bool) {
+				add(withWorld(func(w *World) bool {
+					c2 := c19Of(w)
+					if c2 == nil || !f(c2) {
+						return false
+					}
+					b, _ := json.Marshal(c2)
+					w.Objects[0].Text = string(b)
+					return true
+				}))
+			}
+			L := len(cw.Ops)
+			for size := L / 2; size >= 1; size /= 2 {
+				for at := 0; at+size <= L; at += size {
+					at, size := at, size
+					edit(func(c2 *C19World) bool {
+						c2.Ops = append(c2.Ops[:at:at], c2.Ops[at+size:]...)
+						return true
+					})
+				}
+			}
+			edit(func(c2 *C19World) bool {
+				if c2.Init == "zero" {
+					return false
+				}
+				c2.Init, c2.InitKeys = "zero", nil
+				return true
+			})
+			for i := range cw.Ops {
+				i := i
+				edit(func(c2 *C19World) bool {
+					if c2.Ops[i].FailAt == 0 {
+						return false
+					}
+					c2.Ops[i].FailAt = 0
+					return true
+				})
+				edit(func(c2 *C19World) bool {
+					if c2.Ops[i].Key == 0 {
+						return false
+					}
+					c2.Ops[i].Key = 0
+					return true
+				})
+			}
+			if n := try(batch); n != nil {
+				cur, progress = n, true
+			}
+			continue
 		}
 		// 1. drop whole tasks
 		for t := range cur.World.Tasks {
@@ -912,7 +976,10 @@ func (c *coord) minimise(cd *Candidate, budgetEnd time.Time) *ReplayFile {
 		}
 	}
 	rf.World, rf.Tape = cur.World, cur.Tape
-	rf.Minimised.Ops, rf.Minimised.Tasks, rf.Minimised.Tape, rf.Minimised.Evals = cur.World.NumOps(), len(cur.World.Tasks), tapeLen(cur.Tape), evals
+	rf.Minimised.Ops, rf.Minimised.Tasks, rf.Minimised.Tape, rf.Minimised.Evals = numOps(cur.World), len(cur.World.Tasks), tapeLen(cur.Tape), evals
+	if cw := c19Of(cur.World); cur.World.Prop == "C19" && cw != nil {
+		rf.Note = "history: " + c19Describe(cw)
+	}
 	rf.Class = want.Class
 	if r1.out != nil && r1.out.Violation != nil {
 		v := r1.out.Violation
@@ -927,6 +994,15 @@ func (c *coord) minimise(cd *Candidate, budgetEnd time.Time) *ReplayFile {
 		rf.Kind, rf.Detail = want.Kind, "the process dies: "+r1.crashed
 	}
 	return rf
+}
+
+func numOps(w *World) int {
+	if w.Prop == "C19" {
+		if cw := c19Of(w); cw != nil {
+			return len(cw.Ops)
+		}
+	}
+	return w.NumOps()
 }
 
 func mustJSON(v any) []byte {
